@@ -610,6 +610,25 @@ func TestC18(t *testing.T) {
 				}
 				c.Pauses = append(c.Pauses, pausePoint{Seq: p.Seq, After: rapid.Bool().Draw(rt, "after"), Calls: genAPICalls(rt, sc, actors, hashes)})
 			}
+			// a rich-list request dropped by its client right when a block starts: the handler and
+			// the block both want the rolling averages of the same height next
+			if rapid.IntRange(0, 2).Draw(rt, "targetedAbort") > 0 {
+				var begins []int
+				for i, p := range points {
+					if p.Op == "begin" {
+						begins = append(begins, i)
+					}
+				}
+				if len(begins) > 0 {
+					p := points[begins[rapid.IntRange(0, len(begins)-1).Draw(rt, "abortBlock")]]
+					call := apiCall{Method: "get-rich-list", Params: map[string]interface{}{"asset": Tickers[rapid.IntRange(0, 61).Draw(rt, "abAsset")], "count": 10}}
+					if rapid.Bool().Draw(rt, "abGlobal") {
+						call = apiCall{Method: "get-global-rich-list", Params: map[string]interface{}{"count": 10}}
+					}
+					call.Abort = rapid.IntRange(1, 3).Draw(rt, "abAt")
+					c.Pauses = append(c.Pauses, pausePoint{Seq: p.Seq, After: rapid.Bool().Draw(rt, "abAfter"), Calls: []apiCall{call}})
+				}
+			}
 			run, viol, err := runWithAPI(c, dir+"/api", states)
 			if err != nil {
 				rt.Fatalf("harness: %v", err)
